@@ -16,6 +16,7 @@ fn cell(name: &str, auth: Auth, mismatch: bool) -> EvCell {
     let mut alphabet = vec![
         EvOp::Nop,
         EvOp::Connect(1),
+        EvOp::ConnectSlowly(1),
         EvOp::World(Op::Mut(0, TA)),
         EvOp::World(Op::Spawn(1, 1 << TA)),
         EvOp::World(Op::Rm(0, TB)),
@@ -39,7 +40,7 @@ fn cell(name: &str, auth: Auth, mismatch: bool) -> EvCell {
         rounds: 3,
         tick_choice: true,
         env: EvEnv { hold_updates: 0, hold_events: false, reorder: false, drop_unreliable: false, hold_client_events: true, hold_mutations: false, hold_acks: false, update_latency: 0, update_batch: 0 },
-        oracles: EvOracles { c07: true, convergence: !mismatch, ..Default::default() },
+        oracles: EvOracles { c07: true, c05: true, convergence: !mismatch, ..Default::default() },
         closure_rounds: 5,
     }
 }
